@@ -175,6 +175,11 @@ def upcOp (toks : List String) : Option String :=
   | ["upc", "mar", s] => do
     let l ← parseSubResultsS s
     pure ("ok " ++ hx (marshalResult l))
+  | ["upc", "plmn2", _, _m1, _n1, mcc, mnc] => do
+    -- a second SetPlmnDigit on the same object: all three octets are assigned, so the result is that of the second call alone
+    let mcc ← mcc.toNat?
+    let mnc ← mnc.toNat?
+    pure (showOut (setPlmnDigit mcc mnc) fun (a, b, c) => hx [a, b, c])
   | ["upc", "plmn", _, mcc, mnc] => do
     let mcc ← mcc.toNat?
     let mnc ← mnc.toNat?
